@@ -3,7 +3,7 @@ CONSTANTS
   BITS = 2
   Fixed = TRUE
   Ks = {1, 2, 3}
-  Alphabet = {1, 2}
+  Alphabet = {1, 2, 3}
   MaxLen = 2
   MaxN = 3
   Over = 2
